@@ -285,6 +285,8 @@ def run(ctx):
     nt = 40 if ctx.quick() else 400
     for i in range(nt):
         run_triple(ctx, tg, gen_triple(ctx.rng, i, ctx.quick()), dis)
+    import c11_splits
+    c11_splits.run_splits(ctx, tg, dis)          # split points typed as decimal numbers (step counts need not add up)
     ctx.extra["correspondence_disagreements"] = len(dis)
     ctx.assumptions += ["physics kernels are abstract in the continuation theorems; bit-equality for RenormalizeCharge < 0 and the rounding bound otherwise are checked on the binary",
                         "RenormalizeCharge > 0 not dividing the start tag: the model refutes equality (C11_continuation_nondividing_refuted); not compared on the implementation",
@@ -298,7 +300,12 @@ def replay(ctx, rp):
     tg = ctx.build(want_binary=True, harness=("h5cat",))
     dis = []
     case = rp.get("case") or {}
-    if case.get("kind") == "refusal" and str(case.get("file", "")).startswith("gridsize"):
+    if case.get("kind") == "decimal-split":
+        import c11_splits
+        c11_splits.FIXED[:] = [(case["N"], case["T1"], case["T2"])]
+        c11_splits.cases = lambda rng, quick: list(c11_splits.FIXED)
+        c11_splits.run_splits(ctx, tg, dis)
+    elif case.get("kind") == "refusal" and str(case.get("file", "")).startswith("gridsize"):
         gridsize_refusal(ctx, tg, dis)
     elif case.get("kind") == "refusal" or not case.get("kw"):
         refusals(ctx, tg, dis)
